@@ -25,7 +25,7 @@ pub fn to_claims(c: &GClaims) -> Claims {
         userGroups: c.groups.clone(),
         processId: 4242,
         processName: OsString::from(&c.proc_name),
-        processFullPath: PathBuf::from(&c.exe),
+        processFullPath: PathBuf::from(crate::gen::exe_os(&c.exe)),
         processCmdLine: c.cmdline.clone(),
         runAsElevated: c.elevated,
         clientIp: "127.0.0.1".to_string(),
